@@ -174,7 +174,10 @@ def check_metadata_writers(A, rep):
             st = hit
             while not isinstance(st, ast.stmt):
                 st = st._parent
-            okw = f.name == "_initialize_data_in_buffer" or f.name == "_flush"
+            # allowed: where the entry is created (a dict display with its contents), or after this function wrote the file itself
+            creates = isinstance(hit, ast.Dict) and any(isinstance(k, ast.Constant) and k.value == "contents" for k in hit.keys)
+            after_own_write = any(isinstance(c, ast.Call) and isinstance(c.func, ast.Attribute) and c.func.attr == "_save_to_resource" and c.lineno <= hit.lineno for c in ast.walk(f.node))
+            okw = creates or after_own_write
             if okw:
                 rep.ok("C07.f", f"C07.f {f.qualname}: metadata baseline written at entry creation / after this process's own write")
             else:
